@@ -154,6 +154,23 @@ def fromTo (frm to : V3 K) : Quat K :=
 def fromToFixed (frm to : V3 K) : Quat K :=
   fromToUnit antiparallelFixed (normalize frm) (normalize to)
 
+/-- `reb_rotation_init_from_to` with fixes/C20-from-to-nearly-antiparallel.diff on top of the F7 repair: the
+    antiparallel branch is also taken when the sine of the angle between the (normalised, obtuse) vectors is
+    below rounding level, `|from × to|² < tau` (`tau = 1e-30` in the patch) -/
+def fromToUnitTau (tau : K) (anti : V3 K → Quat K) (frm to : V3 K) : Quat K :=
+  if ScalarR.le Scalar.zero (dot frm to) then
+    fromToReduced frm to
+  else
+    let half : V3 K := ⟨frm.x + to.x, frm.y + to.y, frm.z + to.z⟩
+    let half := normalize half
+    if ScalarR.lt (len2 (cross frm to)) tau || !(ScalarR.isnormal (len2 half)) then
+      anti frm
+    else
+      qmul (fromToReduced frm half) (fromToReduced half to)
+
+def fromToFixedTau (tau : K) (frm to : V3 K) : Quat K :=
+  fromToUnitTau tau antiparallelFixed (normalize frm) (normalize to)
+
 /-- `reb_rotation_init_angle_axis` -/
 def angleAxis (angle : K) (axis : V3 K) : Quat K :=
   let axis := normalize axis
